@@ -4,17 +4,19 @@
 \* An event is [u, a, b, s]: identity, the values of two attributes on a small ordered domain
 \* (0 below, 1 equal to, 2 above the threshold value 1) and whether it lies inside the spatial region.
 \* A statement is [attr, op]: "attribute op threshold" with op in < <= > >= ==.
-\* Catalog objects live in `objs`; a call acts on object `cur`:
+\* Catalog objects live in objs; a call acts on ANY existing object o (the original may be filtered again after a
+\* copy was made from it):
 \*   in place      -> that object's events are replaced, the call returns the same object
-\*   not in place  -> a new object is appended and becomes current; the source must stay untouched
+\*   not in place  -> a new object is appended; the object the call was made on must stay untouched
+\* ghost[i] records which statements (and whether the spatial filter) were applied on the way to object i.
 \* Apply mirrors the library: one statement = one boolean mask; a list = masks applied one after another
 \* on a copy; spatial = events whose region mask is FALSE.
 EXTENDS Integers, Sequences, FiniteSets, TLC
 
 CONSTANTS MaxEv, MaxHist, Vals, Restrict, UseGenCats
 
-VARIABLES src0, objs, cur, hist
-vars == <<src0, objs, cur, hist>>
+VARIABLES src0, objs, ghost, cur, hist
+vars == <<src0, objs, ghost, cur, hist>>
 
 Ops == {"<", "<=", ">", ">=", "=="}
 Attrs == {"a", "b"}
@@ -52,29 +54,31 @@ GenCats == { Number(<<Ev(0, 2, TRUE), Ev(1, 1, TRUE), Ev(2, 0, FALSE), Ev(1, 2, 
              Number(<<>>) }
 Init == /\ src0 \in IF UseGenCats THEN GenCats
                     ELSE {Number(es) : es \in UNION {[1..m -> Events] : m \in 0..MaxEv}}
-        /\ objs = <<src0>> /\ cur = 1 /\ hist = <<>>
+        /\ objs = <<src0>> /\ ghost = <<[st |-> {}, sp |-> FALSE]>> /\ cur = 1 /\ hist = <<>>
 
-Call(c) ==
+StmtSet(c) == {c.sts[i] : i \in 1..Len(c.sts)}
+After(g, c) == [st |-> g.st \cup StmtSet(c), sp |-> g.sp \/ c.k = "spatial"]
+Call(c, o) ==
     /\ Len(hist) < MaxHist /\ Allowed(c)
-    /\ hist' = Append(hist, c)
+    /\ hist' = Append(hist, [c |-> c, o |-> o])
     /\ IF c.inplace
-       THEN objs' = [objs EXCEPT ![cur] = Apply(objs[cur], c)] /\ cur' = cur
-       ELSE objs' = Append(objs, Apply(objs[cur], c)) /\ cur' = Len(objs) + 1
+       THEN /\ objs' = [objs EXCEPT ![o] = Apply(objs[o], c)]
+            /\ ghost' = [ghost EXCEPT ![o] = After(ghost[o], c)]
+            /\ cur' = o
+       ELSE /\ objs' = Append(objs, Apply(objs[o], c))
+            /\ ghost' = Append(ghost, After(ghost[o], c))
+            /\ cur' = Len(objs) + 1
     /\ UNCHANGED src0
-Next == \E c \in Calls : Call(c)
+Next == \E c \in Calls : \E o \in 1..Len(objs) : Call(c, o)
 Spec == Init /\ [][Next]_vars
 
 \* ------------------------------------------------------------------ properties
-\* every statement issued so far, whatever the order and grouping
-RECURSIVE AllStmts(_)
-AllStmts(h) == IF h = <<>> THEN {} ELSE {Head(h).sts[i] : i \in 1..Len(Head(h).sts)} \cup AllStmts(Tail(h))
-SpatialUsed(h) == \E i \in 1..Len(h) : h[i].k = "spatial"
-Satisfies(e) == (\A st \in AllStmts(hist) : Holds(st, e)) /\ (SpatialUsed(hist) => e.s)
-
-\* the current catalog holds exactly the events for which every statement is true, in original order, unchanged;
-\* this single equation gives order independence, grouping independence and idempotence
-ExactSelection == objs[cur] = SelectSeq(src0, Satisfies)
-\* a call that is not in place leaves its source untouched
-NonMutating == [][\A c \in Calls : (hist' = Append(hist, c) /\ ~c.inplace) => (\A i \in 1..Len(objs) : objs'[i] = objs[i])]_vars
-OrderPreserved == \A i, j \in 1..Len(objs[cur]) : i < j => objs[cur][i].u < objs[cur][j].u
+Satisfies(g, e) == (\A st \in g.st : Holds(st, e)) /\ (g.sp => e.s)
+\* every catalog object holds exactly the source events for which every statement applied on the way to it is true,
+\* in original order and unchanged; this one equation gives order independence, grouping independence, idempotence
+\* and - because it is stated for EVERY object, not only the one just returned - that no call disturbs another object
+ExactSelection == \A i \in 1..Len(objs) : objs[i] = SelectSeq(src0, LAMBDA e : Satisfies(ghost[i], e))
+\* a call that is not in place leaves every existing object untouched
+NonMutating == [][(Len(objs') = Len(objs) + 1) => (\A i \in 1..Len(objs) : objs'[i] = objs[i])]_vars
+OrderPreserved == \A k \in 1..Len(objs) : \A i, j \in 1..Len(objs[k]) : i < j => objs[k][i].u < objs[k][j].u
 ===================================================================================
